@@ -140,6 +140,20 @@ impl Validator {
                     }
                     Some((k, ToplevelDefinition::Object(mut tld))) => {
                         tld = tld.resolve_class_reference(&self.tlds);
+                        if let ClassLink::ByName(name) = &tld.class {
+                            // `v ID ::= { ... }` reads as an information object when the
+                            // governing type is spelled like a class reference
+                            if let Some(ToplevelDefinition::Type(_)) = self.tlds.get(name) {
+                                warnings.push(
+                                    LinkerError::new(
+                                        Some(k.clone()),
+                                        &format!("{name} is a type and not an information object class: the value assignment was read as an information object and is not generated!"),
+                                        LinkerErrorType::Unknown,
+                                    )
+                                    .into(),
+                                );
+                            }
+                        }
                         self.tlds.insert(k, ToplevelDefinition::Object(tld));
                     }
                     _ => (),
